@@ -6,6 +6,7 @@ import mirsym_extra
 OVERLAYS = [
     ("src/curve25519/fe/mod.rs", "verif_fe", "fe.rs", None, "crate::curve25519::fe"),
     ("src/curve25519/scalar/mod.rs", "verif_scalar", "scalar.rs", None, "crate::curve25519::scalar"),
+    ("src/ed25519.rs", "verif_ed", "ed25519.rs", None, "crate::ed25519"),
 ]
 # harness modules below a private module are re-exported from the nearest crate-visible ancestor for the native replay dispatcher
 EXPORTS = {
@@ -47,4 +48,35 @@ PROPS["C17"] = dict(
                "value specifications as fe64 (mirsym/z3). Equal canonical outputs on both backends follow because both equal the specification.",
     level_note="No workload is run through both backends and compared (that would be sampling); equivalence is via the shared specification.",
     extra=[mirsym_extra.make_compile_check("C17", ["force-32bits"]), mirsym_extra.make_extra("C17", cfgs=("fe32",))],
+)
+
+_ED_ASSUME = ["stubs (recorders): SHA-512 Context512::update/finalize, Ge::scalarmult_base, Ge::to_bytes, Ge::from_bytes, GePartial::double_scalarmult_vartime, GePartial::to_bytes, "
+              "Scalar::reduce_from_wide_bytes, scalar::muladd, curve25519, edwards_to_montgomery_x -> loop-free event loggers returning arbitrary values; "
+              "their own semantics are separate obligations (C01/C02, C15, this property's scalar/group harnesses)"]
+PROPS["C13"] = dict(
+    prefixes=["c13_", "c15_scalar_bytes_bits_nibbles"],
+    level="model_checking",
+    bounds="all seeds / keypairs / extended secrets (full width); message length symbolic 0..=3 bytes (the message enters only through hash updates identified by address, so its "
+           "length does not influence the data flow; SHA-512 block boundaries are C01/C02's step)",
+    outside="the primitives are recorded, not executed: SHA-512 (C01/C02), fixed-base scalar multiplication and its tables, reduction and multiply-add mod L (mirsym scalar obligations "
+            "when listed in the evidence of this run)",
+    assumptions=_ED_ASSUME,
+    trusted=[],
+    explanation="RFC 8032 5.1.5/5.1.6 as event-sequence assertions over the real keypair/signature/signature_extended/exchange code",
+    level_text="clamp_scalar for all inputs; keypair = seed || enc([clamp(H(seed)[0..32])]B); signature and signature_extended: r = H(prefix||M) mod L, R = enc([r]B), "
+               "h = H(R||A||M) mod L, S = (h*a + r) mod L, output R||S, with every operand checked byte for byte; exchange = X25519(clamp(H(seed)[0..32]), u(y)). Decided by CBMC for all keys.",
+    level_note="Primitives recorded (arbitrary results), so the wiring holds for every behaviour of the primitives. Message length bound 3 bytes (address-identified).",
+)
+PROPS["C14"] = dict(
+    prefixes=["c14_"],
+    level="model_checking",
+    bounds="all public keys, all 64-byte signatures, message length symbolic 0..=3; decode outcome arbitrary; canonical-S decoder for all 2^256 strings",
+    outside="the group equation itself ([S]B - [h]A computed correctly by the sliding-window routine, point decompression arithmetic) is recorded here; 'honest signatures verify' "
+            "additionally needs C13 + C15",
+    assumptions=_ED_ASSUME,
+    trusted=[],
+    explanation="verify's gate structure and final comparison as event-sequence assertions; the canonical scalar decoder at full width",
+    level_text="verify returns true exactly when the key decodes, is not the all-zero string, S < L (decoder decided for every 32-byte string, so S+L, S+2L.. are refused) and ALL 32 bytes "
+               "of the re-encoded [h]A'+[S]B equal R, with h = H(R||A||M) mod L; decided by CBMC for all (key, signature) pairs with the group primitives recorded.",
+    level_note="Group arithmetic recorded (arbitrary result): the verdict logic holds for every result of the double-scalar product.",
 )
